@@ -4,6 +4,7 @@
 -/
 import PCV.Model.DrvUtil
 import PCV.Model.Marlin
+import PCV.Model.MarlinLC
 namespace PCV
 namespace DrvMarlin
 open Driver Marlin
@@ -76,6 +77,18 @@ def getEvals (r : Req) : R (List ((Label × Fp p) × Fp p)) := do
   let vs ← asFes (← need r "evals")
   pure <| (el.zip (pts.zip vs)).map fun (l, (z, v)) => ((l, z), v)
 
+def asNatss (v : Val) : R (List (List Nat)) := do let xs ← asList v; xs.mapM asNats
+def asLabelss (v : Val) : R (List (List Label)) := do let xs ← asList v; xs.mapM asLabels
+
+/-- linear combinations: `lclabels`, `lccoeffs`, `lcone` (1 = constant term), `lcterms` (label bytes) -/
+def getLCs (r : Req) : R (List (LC.LinComb (Fp p))) := do
+  let labels ← asLabels (← need r "lclabels")
+  let coeffs ← asFess (← need r "lccoeffs")
+  let ones ← asNatss (← need r "lcone")
+  let terms ← asLabelss (← need r "lcterms")
+  pure <| (labels.zip (coeffs.zip (ones.zip terms))).map fun (l, (cs, (os, ts))) =>
+    ⟨l, (cs.zip (os.zip ts)).map fun (c, (o, t)) => (c, if o != 0 then LC.LCTerm.one else LC.LCTerm.poly t)⟩
+
 def vProofs (πs : List (KZG.Proof (Fp p))) : List (String × Val) :=
   [("ws", vFes (πs.map (·.w))), ("rvs", .l (πs.map fun π => vOptFe π.rv))]
 
@@ -131,6 +144,24 @@ def handle (p : Nat) (r : Req) : Option (R String) :=
     let ξs ← asFes (← need r "xis")
     let rs ← asFes (← need r "rs")
     pure <| exceptReply (batchCheck vk comms qs evals πs ξs rs) fun b => [("b", vBool b)]
+  | "marlin.open_combinations" =>
+    let polys ← getPolys (p := p) r
+    let rands ← getRands (p := p) r
+    let comms ← getComms (p := p) r
+    let lcs ← getLCs (p := p) r
+    let qs ← getQueries (p := p) r
+    let ξs ← asFes (← need r "xis")
+    pure <| exceptReply (openCombinations ck polys rands comms lcs qs ξs) fun (πs, rest) =>
+      vProofs πs ++ [("used", .n (ξs.length - rest.length))]
+  | "marlin.check_combinations" =>
+    let comms ← getComms (p := p) r
+    let lcs ← getLCs (p := p) r
+    let qs ← getQueries (p := p) r
+    let evals ← getEvals (p := p) r
+    let πs ← getProofs (p := p) r
+    let ξs ← asFes (← need r "xis")
+    let rs ← asFes (← need r "rs")
+    pure <| exceptReply (checkCombinations vk comms lcs qs evals πs ξs rs) fun b => [("b", vBool b)]
   | _ => .error "unknown-op"
 
 end DrvMarlin
